@@ -24,6 +24,11 @@ number of stages).  The stages of the real tunnel, and what covers each:
   * OS sockets (kernel buffers) and the tokio scheduler: TRUSTED to be FIFO pipes (`Seg.Ok`
     assumed for those stages); the end-to-end harness (`pvhf e2e`) samples the glue between the
     stages (listeners, `handle_remote`, forwarder) over real sockets.
+HTTP proxy (part c).  Which tunnel one parsed request makes the client ask for and what the local
+client is answered (`Penguin.HttpProxy`, `handle_remote/http.rs:30-131`): the target of a CONNECT,
+the bracket rule for IPv6 literals, every refusal, and what happens to the other methods.  hyper
+and the `http` crate (request parsing) are black boxes; `pvhf httpproxy` runs the real handler.
+
 The two directions of a connection are two chains sharing no state; at the endpoint a half-close
 touches only its own direction (`half_close_keeps_reverse_direction`, from C05's glue lemmas).
 -/
@@ -37,6 +42,9 @@ import Penguin.Spec.Pipe
 import Penguin.Model.Socks
 import Penguin.Spec.Rfc1928
 import Penguin.Props.C18
+import Penguin.Model.HttpProxy
+import Penguin.Lemmas.HttpProxy
+import Penguin.Lemmas.RemoteSpecKind
 
 namespace Penguin.C01
 open Penguin Penguin.Constants
@@ -721,5 +729,509 @@ theorem association_survives_junk_datagrams (ins : List RelayIn) :
 example : forwardedOf (relayRun true [.malformed, .request [1] 53 [9], .fragmented, .request [2] 54 []]) =
     [.forwarded [1] 53 [9], .forwarded [2] 54 []] := by decide
 
+
+/-! ## (c) The HTTP-proxy entry point -/
+
+section http
+open Penguin.HttpProxy
+
+/-- The host of the tunnel request is the authority's host with ONE pair of surrounding brackets
+    removed, and only when both are there: `[` ++ inner ++ `]` becomes `inner`; every other host —
+    no leading `[`, a leading `[` without a closing `]` at the very end, the empty host — is passed
+    on unchanged.  (Not idempotent, and not claimed to be: see the example below.) -/
+theorem http_strip_brackets_spec (h : Bytes) :
+    (∀ inner, h = 0x5b :: (inner ++ [0x5d]) → stripBrackets h = inner) ∧
+    ((¬ ∃ inner, h = 0x5b :: (inner ++ [0x5d])) → stripBrackets h = h) ∧
+    (h.head? ≠ some 0x5b → stripBrackets h = h) := by
+  have ho : UInt8.ofNat httpBracketOpen = 0x5b := by decide
+  have hc : UInt8.ofNat httpBracketClose = 0x5d := by decide
+  refine ⟨?_, ?_, ?_⟩
+  · rintro inner rfl
+    simp [stripBrackets, ho, hc, stripSuffix_concat]
+  · intro hn
+    cases h with
+    | nil => rfl
+    | cons c t =>
+      simp only [stripBrackets, ho, hc]
+      split
+      · rename_i hc'
+        cases hs : stripSuffix 0x5d t with
+        | none => rfl
+        | some inner =>
+          exact absurd ⟨inner, by rw [hc', stripSuffix_eq_some hs]⟩ hn
+      · rfl
+  · intro hh
+    cases h with
+    | nil => rfl
+    | cons c t =>
+      have : c ≠ 0x5b := by simpa using hh
+      simp [stripBrackets, ho, this]
+
+/-- `[::1]` → `::1`; `::1`, `[::1`, `::1]`, `[`, `[]x` and the empty host are left alone; `[]` → empty;
+    and the rule is not idempotent: `[[::1]]` → `[::1]` → `::1`. -/
+example : stripBrackets [0x5b, 0x3a, 0x3a, 0x31, 0x5d] = [0x3a, 0x3a, 0x31]
+    ∧ stripBrackets [0x3a, 0x3a, 0x31] = [0x3a, 0x3a, 0x31]
+    ∧ stripBrackets [0x5b, 0x3a, 0x3a, 0x31] = [0x5b, 0x3a, 0x3a, 0x31]
+    ∧ stripBrackets [0x3a, 0x3a, 0x31, 0x5d] = [0x3a, 0x3a, 0x31, 0x5d]
+    ∧ stripBrackets [0x5b] = [0x5b]
+    ∧ stripBrackets [0x5b, 0x5d, 0x78] = [0x5b, 0x5d, 0x78]
+    ∧ stripBrackets [] = []
+    ∧ stripBrackets [0x5b, 0x5d] = []
+    ∧ stripBrackets [0x5b, 0x5b, 0x3a, 0x3a, 0x31, 0x5d, 0x5d] = [0x5b, 0x3a, 0x3a, 0x31, 0x5d]
+    ∧ stripBrackets (stripBrackets [0x5b, 0x5b, 0x3a, 0x3a, 0x31, 0x5d, 0x5d]) ≠ stripBrackets [0x5b, 0x5b, 0x3a, 0x3a, 0x31, 0x5d, 0x5d] := by
+  decide
+
+/-- CONNECT with an authority `(h, p)` whose port, if one is written, is a port number: whenever
+    the main loop is there the tunnel is requested for exactly (`h` without its pair of brackets,
+    the port written, else 443 for an `https` URI and 80 otherwise) — once — and never otherwise; the
+    client is answered `200` with an empty body, and its connection is bridged to the stream, exactly
+    when the main loop is there and hands a stream over; the request itself is never forwarded. -/
+theorem http_connect_target (h : Bytes) (p : PortIn) (https : Bool) (env : Env) (hp : p ≠ .invalid) :
+    let o := proxy { method := .connect, authority := some ⟨h, p⟩, schemeHttps := https } env
+    (o.tunnels = if env.reserveOk then [(stripBrackets h, httpNamedPort p https)] else []) ∧
+    (o.answer = .fixed 200 [] ↔ env.reserveOk = true ∧ env.channelOk = true) ∧
+    (o.bridged = true ↔ env.reserveOk = true ∧ env.channelOk = true) ∧
+    o.forwarded = false := by
+  have hs : httpStripsBrackets = true := rfl
+  rcases env with ⟨a, b, c, d⟩
+  cases p <;> cases https <;> cases a <;> cases b <;>
+    simp_all [proxy, refuse, targetHost, targetPort, defaultPort, httpNamedPort, httpStatusShuttingDown,
+      httpStatusNoChannel, httpStatusConnectOk, httpBodyConnectOk, httpDefaultPort, httpDefaultPortHttps]
+
+example : (proxy { method := .connect, authority := some ⟨[0x5b, 0x3a, 0x3a, 0x31, 0x5d], .absent⟩, schemeHttps := true }
+      { reserveOk := true, channelOk := true, handshakeOk := false, sendOk := false }) =
+    { answer := .fixed 200 [], tunnels := [([0x3a, 0x3a, 0x31], 443)], bridged := true, forwarded := false } := by decide
+
+/-- The defect fixed by 8ad03c3, for every address: when the authority's host is `[` ++ a ++ `]`
+    — `a` the text of an IPv6 address, as `Authority::host` returns an IPv6 literal — the tunnel is
+    requested for `a` itself, the form the server's `lookup_host((host, port))` resolves (with the
+    brackets it fails: "invalid socket address").  In particular for the canonical text of every
+    16-byte address (`renderV6`, the text the SOCKS entry points pass for the same target). -/
+theorem http_ipv6_literal_target (a : Bytes) (p : PortIn) (m : Method) (https : Bool) (env : Env)
+    (hr : env.reserveOk = true) (hp : p ≠ .invalid) :
+    (proxy { method := m, authority := some ⟨0x5b :: (a ++ [0x5d]), p⟩, schemeHttps := https } env).tunnels =
+      [(a, httpNamedPort p https)] ∧
+    ∀ raw : Bytes, a = (Socks.renderV6 raw).toUTF8.toList →
+      (proxy { method := m, authority := some ⟨0x5b :: (a ++ [0x5d]), p⟩, schemeHttps := https } env).tunnels =
+        [((Socks.renderV6 raw).toUTF8.toList, httpNamedPort p https)] := by
+  have hs : httpStripsBrackets = true := rfl
+  have hb := (http_strip_brackets_spec (0x5b :: (a ++ [0x5d]))).1 a rfl
+  have key : (proxy { method := m, authority := some ⟨0x5b :: (a ++ [0x5d]), p⟩, schemeHttps := https } env).tunnels =
+      [(a, httpNamedPort p https)] := by
+    rcases env with ⟨r, b, c, d⟩
+    simp only at hr
+    subst hr
+    cases p <;> cases https <;> cases m <;> cases b <;> cases c <;> cases d <;>
+      simp_all [proxy, refuse, targetHost, targetPort, defaultPort, httpNamedPort, httpDefaultPort, httpDefaultPortHttps]
+  exact ⟨key, fun raw h => h ▸ key⟩
+
+example : (proxy { method := .connect, authority := some ⟨0x5b :: ((Socks.renderV6 [0,0,0,0,0,0,0,0,0,0,0,0,0,0,0,1]).toUTF8.toList ++ [0x5d]), .num 8080⟩, schemeHttps := false }
+      { reserveOk := true, channelOk := true, handshakeOk := true, sendOk := true }).tunnels =
+    [((Socks.renderV6 [0,0,0,0,0,0,0,0,0,0,0,0,0,0,0,1]).toUTF8.toList, 8080)] :=
+  (http_ipv6_literal_target _ _ _ _ _ rfl (by decide)).1
+
+/-- A request without an authority (origin-form `GET /path`, `OPTIONS *`, `CONNECT /x`) never makes
+    the client ask for a tunnel, whatever the method, the scheme and the environment; it is answered
+    `400` (or `503` when the main loop has gone), nothing is bridged, nothing forwarded. -/
+theorem http_no_tunnel_without_authority (m : Method) (https : Bool) (env : Env) :
+    let o := proxy { method := m, authority := none, schemeHttps := https } env
+    o.tunnels = [] ∧ o.bridged = false ∧ o.forwarded = false ∧
+    (env.reserveOk = true → o.answer = .fixed 400 httpBodyNoAuthority) ∧
+    (env.reserveOk = false → o.answer = .fixed 503 httpBodyShuttingDown) := by
+  rcases env with ⟨a, b, c, d⟩
+  cases a <;> simp [proxy, refuse, httpStatusNoAuthority, httpStatusShuttingDown]
+
+example : (proxy { method := .other, authority := none, schemeHttps := false }
+      { reserveOk := true, channelOk := true, handshakeOk := true, sendOk := true }).answer = .fixed 400 httpBodyNoAuthority := by decide
+
+/-- When the main loop has exited (`reserve()` fails) every request — well-formed or not, CONNECT or
+    not — is answered `503` "Proxy server is shutting down" before anything else is looked at: no
+    tunnel, no bridge, nothing forwarded. -/
+theorem http_no_tunnel_when_shutting_down (r : Req) (env : Env) (h : env.reserveOk = false) :
+    proxy r env = { answer := .fixed 503 httpBodyShuttingDown, tunnels := [], bridged := false, forwarded := false } := by
+  simp [proxy, refuse, h, httpStatusShuttingDown]
+
+example : (proxy { method := .connect, authority := none, schemeHttps := true }
+      { reserveOk := false, channelOk := true, handshakeOk := true, sendOk := true }).answer = .fixed 503 httpBodyShuttingDown := by decide
+
+/-- Every refusal, with its exact status and body, happens under exactly one condition, in the order
+    of the code: 503 (main loop gone), 400 "Malformed CONNECT request" (no authority), 400 "Invalid
+    port …" (a port text that is no port number), 500 (no stream handed over), and for the other
+    methods 502 "Failed to establish connection" (HTTP/1 handshake on the stream) / 502 "Failed to
+    proxy request to target" (sending).  `200` is answered only to a CONNECT, with an empty body, and
+    only when a stream exists (one tunnel was requested and granted); the answer of the target is
+    relayed, and a connection bridged, only with a stream as well. -/
+theorem http_failure_answers (r : Req) (env : Env) :
+    let o := proxy r env
+    (o.answer = .fixed 503 httpBodyShuttingDown ↔ env.reserveOk = false) ∧
+    (o.answer = .fixed 400 httpBodyNoAuthority ↔ env.reserveOk = true ∧ r.authority = none) ∧
+    (o.answer = .fixed 400 httpBodyInvalidPort ↔
+      env.reserveOk = true ∧ ∃ a, r.authority = some a ∧ a.port = .invalid) ∧
+    (o.answer = .fixed 500 httpBodyNoChannel ↔
+      env.reserveOk = true ∧ httpNamesTarget r ∧ env.channelOk = false) ∧
+    (o.answer = .fixed 502 httpBodyHandshakeFailed ↔
+      env.reserveOk = true ∧ httpNamesTarget r ∧ env.channelOk = true ∧ r.method = .other ∧ env.handshakeOk = false) ∧
+    (o.answer = .fixed 502 httpBodySendFailed ↔
+      env.reserveOk = true ∧ httpNamesTarget r ∧ env.channelOk = true ∧ r.method = .other ∧ env.handshakeOk = true ∧
+        env.sendOk = false) ∧
+    (∀ b, o.answer = .fixed 200 b →
+      b = [] ∧ r.method = .connect ∧ env.reserveOk = true ∧ env.channelOk = true ∧ o.tunnels.length = 1) ∧
+    (o.answer = .upstream → env.reserveOk = true ∧ env.channelOk = true ∧ o.tunnels.length = 1) ∧
+    (o.bridged = true → env.reserveOk = true ∧ env.channelOk = true ∧ o.tunnels.length = 1) := by
+  have hrj : httpRejectsInvalidPort = true := rfl
+  have d1 : httpBodyNoAuthority ≠ httpBodyInvalidPort := by decide
+  have d2 : httpBodyHandshakeFailed ≠ httpBodySendFailed := by decide
+  rcases r with ⟨m, _ | ⟨h, p⟩, https⟩ <;> rcases env with ⟨a, b, c, d⟩
+  · cases a <;>
+      simp [proxy, refuse, httpNamesTarget, httpStatusShuttingDown, httpStatusNoAuthority, d1]
+  · cases p <;> cases a <;> cases b <;> cases m <;> cases c <;> cases d <;>
+      simp [proxy, refuse, targetPort, httpNamesTarget, hrj, d1.symm, d2, d2.symm, httpStatusShuttingDown,
+        httpStatusInvalidPort, httpStatusNoChannel, httpStatusConnectOk, httpBodyConnectOk,
+        httpStatusHandshakeFailed, httpStatusSendFailed]
+
+example : httpNamesTarget { method := .other, authority := some ⟨[0x68], .num 81⟩, schemeHttps := false } :=
+  ⟨_, rfl, by decide⟩
+
+example : (proxy { method := .connect, authority := some ⟨[0x68], .invalid⟩, schemeHttps := false }
+      { reserveOk := true, channelOk := true, handshakeOk := true, sendOk := true }) =
+    { answer := .fixed 400 httpBodyInvalidPort, tunnels := [], bridged := false, forwarded := false } := by decide
+
+/-- One request asks for at most one tunnel, and only for the (bracket-stripped) host of its own
+    authority and the port that authority names. -/
+theorem http_tunnel_requested_at_most_once (r : Req) (env : Env) :
+    (proxy r env).tunnels.length ≤ 1 ∧
+    ∀ t ∈ (proxy r env).tunnels, ∃ a, r.authority = some a ∧ a.port ≠ .invalid ∧
+      t = (stripBrackets a.host, httpNamedPort a.port r.schemeHttps) := by
+  have hs : httpStripsBrackets = true := rfl
+  have hrj : httpRejectsInvalidPort = true := rfl
+  rcases r with ⟨m, _ | ⟨h, p⟩, https⟩ <;> rcases env with ⟨a, b, c, d⟩
+  · cases a <;> simp [proxy, refuse]
+  · cases p <;> cases https <;> cases a <;> cases b <;> cases m <;> cases c <;> cases d <;>
+      simp [proxy, refuse, targetHost, targetPort, defaultPort, httpNamedPort, hs, hrj, httpDefaultPort, httpDefaultPortHttps]
+
+example : (proxy { method := .other, authority := some ⟨[0x68], .absent⟩, schemeHttps := false }
+      { reserveOk := true, channelOk := false, handshakeOk := true, sendOk := true }).tunnels = [([0x68], 80)] := by decide
+
+/-- Any other method, as the code is: the tunnel is requested BEFORE the method is looked at, so a
+    `GET` (or any non-CONNECT) with an authority opens a tunnel to the same target a CONNECT would;
+    the client's connection is not bridged; with a stream the request is handed to an HTTP/1 client
+    on it exactly when the handshake succeeds, and the target's answer is relayed exactly when the
+    handshake and the sending succeed. -/
+theorem http_non_connect_forwards (h : Bytes) (p : PortIn) (https : Bool) (env : Env) (hp : p ≠ .invalid) :
+    let o := proxy { method := .other, authority := some ⟨h, p⟩, schemeHttps := https } env
+    o.tunnels = (proxy { method := .connect, authority := some ⟨h, p⟩, schemeHttps := https } env).tunnels ∧
+    o.bridged = false ∧
+    (o.forwarded = true ↔ env.reserveOk = true ∧ env.channelOk = true ∧ env.handshakeOk = true) ∧
+    (o.answer = .upstream ↔ env.reserveOk = true ∧ env.channelOk = true ∧ env.handshakeOk = true ∧ env.sendOk = true) := by
+  rcases env with ⟨a, b, c, d⟩
+  cases p <;> cases a <;> cases b <;> cases c <;> cases d <;>
+    simp_all [proxy, refuse, targetPort]
+
+example : (proxy { method := .other, authority := some ⟨[0x68], .num 8080⟩, schemeHttps := false }
+      { reserveOk := true, channelOk := true, handshakeOk := true, sendOk := true }) =
+    { answer := .upstream, tunnels := [([0x68], 8080)], bridged := false, forwarded := true } := by decide
+
+end http
+
+
+end Penguin.C01
+
+namespace Penguin.C01
+
+/-! ### Remote specifications -/
+
+section RemoteSpecifications
+open Penguin.RemoteSpec Penguin.Constants
+
+/-- An oracle for the examples: idna leaves every host alone, lower-casing is the ASCII one. -/
+def plainOracle : Oracle := ⟨fun h => some h, fun s => s.map Char.toLower⟩
+/-- idna lower-cases (as the real one does on ASCII letters). -/
+def loweringOracle : Oracle := ⟨fun h => some (h.map Char.toLower), fun s => s.map Char.toLower⟩
+/-- idna refuses everything. -/
+def refusingOracle : Oracle := ⟨fun _ => none, fun s => s.map Char.toLower⟩
+
+/-- `Remote::from_str` returns a remote or one of the errors of `remote_spec.rs:61-83`, for every
+    text and whatever `idna::domain_to_ascii` and `str::to_lowercase` answer: neither
+    `unreachable!()` (`:232`, `:370`) is reachable, and the tokenizer's loop ends within five
+    iterations (the model's unrolling of it never runs out, and is the same for every larger bound). -/
+theorem remote_parse_total_no_panic (o : Oracle) (s : Str) :
+    ((∃ r, parse o s = .ok r) ∨ (∃ e, parse o s = .error (.err e))) ∧
+    (∀ fuel, 5 ≤ fuel → tokLoop fuel [] s = tokenize s) := by
+  refine ⟨?_, fun fuel h => tokenize_any_fuel s fuel h⟩
+  cases h : parse o s with
+  | ok r => exact Or.inl ⟨r, rfl⟩
+  | error f =>
+    cases f with
+    | err e => exact Or.inr ⟨e, rfl⟩
+    | panic p => exact absurd h (parse_noPanic o s p)
+
+example : parse plainOracle "[::1]:8080:example.com:80/udp".toList =
+    .ok ⟨.inet "::1".toList 8080, .inet "example.com".toList 80, .udp⟩ := by decide
+example : parse plainOracle "a:b:c:d:e".toList = .error (.err .tooManySegments) := by decide
+
+/-- The tokenizer, completely: a text is split into `toks` exactly when `toks` are one to four
+    possible tokens (not empty; in brackets: no `]` inside; bare: no `:` inside and no `[` in front)
+    and the text is these tokens joined with `:`, the bracketed ones in their brackets.  In
+    particular a successful tokenization loses nothing but the brackets. -/
+theorem remote_tokens_spec (s : Str) (toks : List Tok) :
+    tokenize s = .ok toks ↔
+      (1 ≤ toks.length ∧ toks.length ≤ 4) ∧ (∀ t ∈ toks, t.WF) ∧ joinToks toks = s := by
+  rw [tokenize_ok_iff]
+  constructor
+  · rintro ⟨h1, h2, h3, h4⟩
+    exact ⟨⟨by cases toks <;> simp_all, h2⟩, h3, h4⟩
+  · rintro ⟨⟨h1, h2⟩, h3, h4⟩
+    exact ⟨by intro e; subst e; simp at h1, h2, h3, h4⟩
+
+example : tokenize "[fe80::1%eth0]:53:[unix:/a:b]:x".toList =
+    .ok [⟨"fe80::1%eth0".toList, true⟩, ⟨"53".toList, false⟩, ⟨"unix:/a:b".toList, true⟩, ⟨"x".toList, false⟩] := by decide
+example : Tok.WF ⟨"fe80::1%eth0".toList, true⟩ ∧ ¬ Tok.WF ⟨"a:b".toList, false⟩ := by
+  constructor
+  · exact ⟨by decide, by decide⟩
+  · intro h; exact absurd h.2 (by decide)
+
+/-- `Display` followed by `from_str` gives the remote back, for every well-formed remote
+    (`Remote.WF`: ports are 16-bit; a host is not empty, has no `]` if it has a `:`, does not start
+    with `[` if it has none, and is left alone by idna; a socket path has no `]`; the combination
+    passes the parser's own refusals; a local host spelled `stdio` has a fixed target) and every
+    `to_lowercase` that leaves `tcp` and `udp` alone.  NOT among the conditions: `/` in a host or in a
+    socket path, `unix:` in front of a host — `Display` always appends the protocol, so the last `/`
+    is the protocol's. -/
+theorem remote_display_parse_roundtrip (o : Oracle) (ho : OracleOK o) (r : Remote) (h : r.WF o) :
+    parse o r.display = .ok r :=
+  display_parse_roundtrip o ho r h
+
+-- the hypotheses hold of non-trivial values (slashes, a zone, `unix:` as a host, a `]` in a bare host)
+example : OracleOK plainOracle := ⟨by decide, by decide⟩
+example : Remote.WF plainOracle ⟨.inet "fe80::1%eth/0".toList 53, .inet "unix:/x]".toList.dropLast 65535, .udp⟩ := by
+  refine ⟨⟨⟨by decide, by decide, by decide, rfl⟩, by decide, fun _ => ⟨_, _, rfl⟩⟩, ⟨by decide, by decide, by decide, rfl⟩, by decide⟩
+example : Remote.WF plainOracle ⟨.domainSocket "/tmp/a:b/c".toList, .http, .tcp⟩ := by
+  exact ⟨⟨by decide, rfl, by decide⟩, rfl⟩
+example : parse plainOracle (Remote.display ⟨.inet "x]y".toList 0, .inet "a/b".toList 80, .udp⟩) =
+    .ok ⟨.inet "x]y".toList 0, .inet "a/b".toList 80, .udp⟩ := by decide
+
+-- each side condition is needed (these are facts about the code):
+/-- an empty host is displayed as nothing -/
+example : parse plainOracle (Remote.display ⟨.inet [] 80, .inet "h".toList 80, .tcp⟩) = .error (.err .emptySegment) := by decide
+/-- a host with `:` and `]`: the tokenizer stops at the first `]` -/
+example : parse plainOracle (Remote.display ⟨.inet "a:]b".toList 80, .inet "h".toList 80, .tcp⟩) =
+    .error (.err (.garbageAfterAddress 'b')) := by decide
+/-- a host without `:` that starts with `[` is displayed bare and read as an unclosed bracket -/
+example : parse plainOracle (Remote.display ⟨.inet "[x".toList 80, .inet "h".toList 80, .tcp⟩) =
+    .error (.err .bracketMismatch) := by decide
+/-- idna changes the host (the real one lower-cases and punycodes): the remote read back differs -/
+example : parse loweringOracle (Remote.display ⟨.inet "H".toList 80, .socks, .tcp⟩) = .ok ⟨.inet "h".toList 80, .socks, .tcp⟩ := by decide
+/-- a local host spelled `stdio` in front of a key word is read as the stdio form -/
+example : parse plainOracle (Remote.display ⟨.inet "stdio".toList 80, .socks, .tcp⟩) =
+    .error (.err (.port "socks".toList .invalidDigit)) := by decide
+/-- and such a remote can come out of the parser (idna lower-cases `STDIO`): an accepted text whose
+    remote is displayed as a text that is refused -/
+example : parse loweringOracle "STDIO:80:socks".toList = .ok ⟨.inet "stdio".toList 80, .socks, .tcp⟩ := by decide
+/-- a `]` in a socket path -/
+example : parse plainOracle (Remote.display ⟨.domainSocket "a]b".toList, .socks, .tcp⟩) =
+    .error (.err (.garbageAfterAddress 'b')) := by decide
+/-- a port that is not a `u16` (not a value of the Rust type) -/
+example : parse plainOracle (Remote.display ⟨.inet "h".toList 65536, .socks, .tcp⟩) =
+    .error (.err (.port "65536".toList .posOverflow)) := by decide
+/-- the refused combinations -/
+example : parse plainOracle (Remote.display ⟨.inet "h".toList 1, .socks, .udp⟩) =
+    .error (.err (.unsupportedCombination .socksHttpUdp)) := by decide
+example : parse plainOracle (Remote.display ⟨.domainSocket "p".toList, .inet "h".toList 1, .udp⟩) =
+    .error (.err (.unsupportedCombination .unixUdp)) := by decide
+example : parse plainOracle (Remote.display ⟨.domainSocket "p".toList, .tproxy, .tcp⟩) =
+    .error (.err (.unsupportedCombination .unixTproxy)) := by decide
+example : parse plainOracle (Remote.display ⟨.stdio, .tproxy, .tcp⟩) =
+    .error (.err (.unsupportedCombination .stdioTproxy)) := by decide
+/-- a `to_lowercase` that does not leave `tcp` alone -/
+example : parse ⟨fun h => some h, fun _ => []⟩ (Remote.display ⟨.stdio, .socks, .tcp⟩) = .error (.err (.protocol [])) := by decide
+
+/-- The fixed-target forms `PORT`, `HOST:PORT`, `LPORT:HOST:PORT`, `LHOST:LPORT:HOST:PORT`,
+    `stdio:[HOST:]PORT`, `[unix:PATH]:[HOST:]PORT`, each with or without `/protocol`: the listener and
+    the target are exactly the ones written or the documented defaults (`0.0.0.0` to listen,
+    `127.0.0.1` as target, local port = remote port), a host arrives as idna returns it for the text
+    WITHOUT the brackets, a port has the value of any spelling `u16::from_str` accepts, the protocol
+    is the suffix's (tcp without one); only a unix socket with udp is refused. -/
+theorem remote_target_spec (o : Oracle) (t : Target) (sfx : Suffix) (ht : t.OK o) (hs : sfx.OK o) :
+    parse o (joinToks t.toks ++ sfx.text) =
+      if t.isUnix = true ∧ sfx.proto = .udp then .error (.err (.unsupportedCombination .unixUdp))
+      else .ok (t.expected sfx.proto) :=
+  target_spec o t sfx ht hs
+
+-- `/UDP` is udp, `+0080` is 80, the IPv6 literal arrives without brackets, the unix path with its slashes
+example : Suffix.OK plainOracle (.some "UDP".toList .udp) := ⟨by decide, by decide, by decide⟩
+example : Target.OK plainOracle (.full ⟨⟨"::1".toList, true⟩, "::1".toList⟩ ⟨⟨"+0080".toList, false⟩, 80⟩
+    ⟨⟨"fe80::1%eth0".toList, true⟩, "fe80::1%eth0".toList⟩ ⟨⟨"53".toList, false⟩, 53⟩) := by
+  refine ⟨⟨⟨by decide, by decide⟩, rfl⟩, ⟨⟨by decide, by decide⟩, by decide⟩, ⟨⟨by decide, by decide⟩, rfl⟩,
+    ⟨⟨by decide, by decide⟩, by decide⟩⟩
+example : parse plainOracle "[::1]:+0080:[fe80::1%eth0]:53/UDP".toList =
+    .ok ⟨.inet "::1".toList 80, .inet "fe80::1%eth0".toList 53, .udp⟩ := by decide
+example : parse plainOracle "[unix:/tmp/a/b]:example.com:22".toList =
+    .ok ⟨.domainSocket "/tmp/a/b".toList, .inet "example.com".toList 22, .tcp⟩ := by decide
+example : parse plainOracle "3000".toList = .ok ⟨.inet "0.0.0.0".toList 3000, .inet "127.0.0.1".toList 3000, .tcp⟩ := by decide
+/-- the help text's `R:` (reverse) prefix is not a form of this parser: `R` is a host -/
+example : parse plainOracle "R:3000/udp".toList = .ok ⟨.inet "0.0.0.0".toList 3000, .inet "R".toList 3000, .udp⟩ := by decide
+
+/-- `socks` / `http` / `tproxy` as the last token select exactly that entry kind — alone (listening
+    on `127.0.0.1` and the kind's default port), after a port (`127.0.0.1:PORT`), after host and port,
+    after `stdio`, after `[unix:PATH]` — and the refusals are the code's, in the code's order:
+    `stdio` + `tproxy` first, then `socks`/`http` + udp, then unix + udp, then unix + `tproxy`. -/
+theorem remote_entry_kind_spec (o : Oracle) (e : Entry) (sfx : Suffix) (he : e.OK o) (hs : sfx.OK o) :
+    parse o (joinToks e.toks ++ sfx.text) = e.expected sfx.proto :=
+  entry_spec o e sfx he hs
+
+example : parse plainOracle "socks".toList = .ok ⟨.inet "127.0.0.1".toList 1080, .socks, .tcp⟩ := by decide
+example : parse plainOracle "http".toList = .ok ⟨.inet "127.0.0.1".toList 8080, .http, .tcp⟩ := by decide
+example : parse plainOracle "tproxy/udp".toList = .ok ⟨.inet "127.0.0.1".toList 8081, .tproxy, .udp⟩ := by decide
+example : parse plainOracle "[::1]:5000:[http]".toList = .ok ⟨.inet "::1".toList 5000, .http, .tcp⟩ := by decide
+example : parse plainOracle "[unix:/p]:tproxy/udp".toList = .error (.err (.unsupportedCombination .unixUdp)) := by decide
+example : parse plainOracle "stdio:tproxy/udp".toList = .error (.err (.unsupportedCombination .stdioTproxy)) := by decide
+example : parse plainOracle "SOCKS".toList = .error (.err (.port "SOCKS".toList .invalidDigit)) := by decide
+example : Entry.expected .udp (.unix "/p".toList .socks false) = .error (.err (.unsupportedCombination .socksHttpUdp)) := by decide
+
+/-- The converse: whatever text is accepted, its remote is a SOCKS / HTTP / TPROXY entry point exactly
+    when the LAST token of the part in front of the protocol suffix is `socks` / `http` / `tproxy`
+    (brackets around the key word do not matter, upper case does: `SOCKS` is a bad port), and its
+    protocol is the one the split found. -/
+theorem remote_entry_kind_iff (o : Oracle) (s : Str) (r : Remote) (h : parse o s = .ok r) :
+    ∃ rest proto init last, splitProto o s = .ok (rest, proto) ∧ tokenize rest = .ok (init ++ [last]) ∧
+      (r.remoteAddr = .socks ↔ last.text = kwSocks) ∧ (r.remoteAddr = .http ↔ last.text = kwHttp) ∧
+      (r.remoteAddr = .tproxy ↔ last.text = kwTproxy) ∧ r.protocol = proto := by
+  obtain ⟨rest, proto, init, last, h1, h2, ⟨k1, k2, k3⟩, h4⟩ := parse_ok_kind h
+  exact ⟨rest, proto, init, last, h1, h2, k1, k2, k3, h4⟩
+
+example : parse plainOracle "socks:80".toList = .ok ⟨.inet "0.0.0.0".toList 80, .inet "socks".toList 80, .tcp⟩ := by decide
+
+/-- Which error, for texts that are `k ≤ 4` well-formed segments, each followed by `:`, and then:
+    * nothing, or another `:` — an empty segment among the first four: `EmptySegment`;
+    * `[]…`: `EmptySegment` as well;
+    * anything, when `k = 4`: `TooManySegments`, even if a later segment is empty (the count is
+      checked first) — except
+    * `[` with no `]` behind it: `BracketMismatch`, for every `k ≤ 4` (the bracket is looked for
+      before the count is checked);
+    * `[t]c…` with `c ≠ ':'`: `GarbageAfterAddress(c)`. -/
+theorem remote_errors_spec (pre : List Tok) (hw : ∀ t ∈ pre, t.WF) (hk : pre.length ≤ 4) (tail : Str) :
+    (pre.length < 4 → (tail = [] ∨ ∃ x, tail = ':' :: x) →
+      tokenize (prefixText pre tail) = .error (.err .emptySegment)) ∧
+    (pre.length < 4 → (∃ x, tail = '[' :: ']' :: x) →
+      tokenize (prefixText pre tail) = .error (.err .emptySegment)) ∧
+    (pre.length = 4 → (tail.head? ≠ some '[' ∨ ']' ∈ tail) →
+      tokenize (prefixText pre tail) = .error (.err .tooManySegments)) ∧
+    ((∃ body, tail = '[' :: body ∧ ']' ∉ body) →
+      tokenize (prefixText pre tail) = .error (.err .bracketMismatch)) ∧
+    (pre.length < 4 → ∀ t ch more, tail = '[' :: t ++ ']' :: ch :: more → t ≠ [] → ']' ∉ t → ch ≠ ':' →
+      tokenize (prefixText pre tail) = .error (.err (.garbageAfterAddress ch))) := by
+  rw [tokenize_prefix hw hk]
+  obtain ⟨f, hf⟩ : ∃ f, 5 - pre.length = f + 1 := ⟨4 - pre.length, by omega⟩
+  rw [hf]
+  refine ⟨fun h1 h2 => step_empty h1 h2, ?_, fun h1 h2 => step_full (by omega) h2, ?_, ?_⟩
+  · rintro h1 ⟨x, rfl⟩; exact step_empty_brackets h1
+  · rintro ⟨body, rfl, hb⟩; exact step_mismatch hb
+  · rintro h1 t ch more rfl h2 h3 h4; exact step_garbage h1 h2 h3 h4
+
+example : parse plainOracle [] = .error (.err .emptySegment) := by decide
+example : parse plainOracle "a::c:d:e".toList = .error (.err .emptySegment) := by decide
+example : parse plainOracle "a:b:c:d::".toList = .error (.err .tooManySegments) := by decide
+example : parse plainOracle "a:b:c:d:[e".toList = .error (.err .bracketMismatch) := by decide
+example : parse plainOracle "a:b:c:d:[e]".toList = .error (.err .tooManySegments) := by decide
+example : parse plainOracle "[::1]x:80".toList = .error (.err (.garbageAfterAddress 'x')) := by decide
+example : prefixText [⟨"a".toList, false⟩, ⟨"b".toList, true⟩] "c".toList = "a:[b]:c".toList := by decide
+
+/-- A suffix that is not a protocol is reported before anything in front of it is looked at, with the
+    LOWER-CASED text; a `/` followed later by a `:` is not a protocol separator at all. -/
+theorem remote_errors_spec_protocol (o : Oracle) (rest ptxt : Str) (h1 : '/' ∉ ptxt) :
+    (':' ∉ ptxt → o.lower ptxt ≠ kwTcp → o.lower ptxt ≠ kwUdp →
+      parse o (rest ++ '/' :: ptxt) = .error (.err (.protocol (o.lower ptxt)))) ∧
+    (':' ∈ ptxt → parse o (rest ++ '/' :: ptxt) =
+      match tokenize (rest ++ '/' :: ptxt) with
+      | .error e => .error e
+      | .ok toks => finish o .tcp (toks.map (·.text))) :=
+  ⟨fun h2 h3 h4 => parse_bad_protocol o rest ptxt h1 h2 h3 h4, fun h2 => parse_colon_after_slash o rest ptxt h1 h2⟩
+
+example : parse plainOracle ":::::[/X".toList = .error (.err (.protocol "x".toList)) := by decide
+example : parse plainOracle "80/".toList = .error (.err (.protocol [])) := by decide
+example : parse plainOracle "80:[fe80::1%eth/0]:80".toList =
+    .ok ⟨.inet "0.0.0.0".toList 80, .inet "fe80::1%eth/0".toList 80, .tcp⟩ := by decide
+/-- but a `/` in the LAST segment is taken for the protocol separator -/
+example : parse plainOracle "80:[fe80::1%eth/0]".toList = .error (.err (.protocol "0]".toList)) := by decide
+/-- and a socket path written without the brackets is cut at its `:` -/
+example : parse plainOracle "unix:/tmp/s:80".toList = .error (.err (.port "unix".toList .invalidDigit)) := by decide
+
+/-- The port texts `u16::from_str` accepts, exactly: an optional single `+`, then one or more ASCII
+    digits — leading zeros allowed — whose value is at most 65535.  (So `+80` and `0080` are ports;
+    `-0`, ` 80`, `８０`, the empty text are not.) -/
+theorem remote_port_text_spec (s : Str) (n : Nat) :
+    parseU16 s = .ok n ↔
+      ∃ ds, (s = ds ∨ s = '+' :: ds) ∧ ds ≠ [] ∧ AllDigits ds ∧ Nat.ofDigitChars 10 ds 0 = n ∧ n ≤ 65535 :=
+  parseU16_ok_iff s n
+
+example : parseU16 "+80".toList = .ok 80 ∧ parseU16 "0000000080".toList = .ok 80 ∧ parseU16 "65535".toList = .ok 65535 := by decide
+example : parseU16 "065536".toList = .error .posOverflow ∧ parseU16 "-0".toList = .error .invalidDigit ∧
+    parseU16 "+".toList = .error .invalidDigit ∧ parseU16 [] = .error .empty ∧ parseU16 "++1".toList = .error .invalidDigit ∧
+    parseU16 "99999x".toList = .error .posOverflow ∧ parseU16 "9999x".toList = .error .invalidDigit := by decide
+
+/-- `u16::from_str` chooses between an unchecked and a checked loop by the BYTE length of the digits
+    (`can_not_overflow`: at most 4); the choice is not observable — the result is always the checked
+    loop's — so that modelling texts as characters rather than bytes loses nothing here. -/
+theorem remote_port_fast_path_unobservable (src : Str) :
+    parseU16 src =
+      if src = [] then .error .empty
+      else if src = ['+'] ∨ src = ['-'] then .error .invalidDigit
+      else checkedLoop 0 (signStripped src) :=
+  parseU16_eq src
+
+example : utf8Len "12é".toList = 4 ∧ parseU16 "12é".toList = .error .invalidDigit ∧
+    utf8Len "12é4".toList = 5 ∧ parseU16 "12é4".toList = .error .invalidDigit := by decide
+
+/-- A single bare segment that is not a key word is a port: `PORT` is accepted exactly when
+    `u16::from_str` accepts it, and refused with that text and `u16`'s error kind otherwise. -/
+theorem remote_errors_spec_port (o : Oracle) (t : Str) (hne : t ≠ []) (h1 : ':' ∉ t) (h2 : '/' ∉ t)
+    (h3 : t.head? ≠ some '[') (h4 : isSpecial t = false) :
+    parse o t =
+      match parseU16 t with
+      | .ok n => .ok ⟨.inet defaultUnspec n, .inet defaultLocal n, .tcp⟩
+      | .error k => .error (.err (.port t k)) :=
+  parse_single o t hne h1 h2 h3 h4
+
+example : parse plainOracle "+80".toList = .ok ⟨.inet "0.0.0.0".toList 80, .inet "127.0.0.1".toList 80, .tcp⟩ := by decide
+example : parse plainOracle "65536".toList = .error (.err (.port "65536".toList .posOverflow)) := by decide
+
+/-- Whatever text a `Port` error carries is a segment of the input on which `u16::from_str` fails
+    with that kind; since segments are never empty, the kind is `InvalidDigit` or `PosOverflow`:
+    `Port(_, Empty)` (and `NegOverflow`, `Zero`) cannot come out of `Remote::from_str`. -/
+theorem remote_port_error_never_empty (o : Oracle) (s t : Str) (k : IntErrKind)
+    (h : parse o s = .error (.err (.port t k))) :
+    parseU16 t = .error k ∧ t ≠ [] ∧ (k = .invalidDigit ∨ k = .posOverflow) :=
+  parse_port_error h
+
+example : parse plainOracle "80:x:".toList = .error (.err .emptySegment) := by decide
+example : parse refusingOracle "80:x:9z".toList = .error (.err (.invalidDomain "x".toList)) := by decide
+/-- the local port is read before the host is handed to idna (`:342-351`), the remote port after -/
+example : parse refusingOracle "8o:x:9z".toList = .error (.err (.port "8o".toList .invalidDigit)) := by decide
+
+/-- What `handle_remote` (`client/handle_remote/mod.rs:80-140`) takes for granted about a parsed
+    remote, for every accepted text: `socks` and `http` are tcp ("the parser guarantees that the
+    protocol is TCP"), a unix socket listener is tcp and never `tproxy`, `stdio` never comes with
+    `tproxy` (the `unreachable!` of its last arm), and the ports are 16-bit. -/
+theorem remote_parse_result_invariants (o : Oracle) (s : Str) (r : Remote) (h : parse o s = .ok r) :
+    ((r.remoteAddr = .socks ∨ r.remoteAddr = .http) → r.protocol = .tcp) ∧
+    (r.localAddr.isDomainSocket = true → r.protocol = .tcp ∧ r.remoteAddr ≠ .tproxy) ∧
+    ¬ (r.localAddr = .stdio ∧ r.remoteAddr = .tproxy) ∧
+    r.localAddr.PortOK ∧ r.remoteAddr.PortOK := by
+  obtain ⟨⟨h1, h2, h3⟩, h4, h5⟩ := parse_ok_invariants h
+  exact ⟨h4, h5, h3, h1, h2⟩
+
+example : parse plainOracle "[unix:/p]:socks".toList = .ok ⟨.domainSocket "/p".toList, .socks, .tcp⟩ := by decide
+
+/-- The default ports the help text (`arg/mod.rs:139-149`) advertises against the constants the
+    parser uses: `socks` and `http` agree.  (PARTIAL: `tproxy` does not — see the example.) -/
+theorem remote_help_default_ports_partial :
+    remoteHelpSocksPort = remoteSocksDefaultPort ∧ remoteHelpHttpPort = remoteHttpDefaultPort := by decide
+
+/-- FINDING (documentation, not behaviour): the help text says the default LOCAL_PORT of a `tproxy`
+    remote is 1234; `TPROXY_DEFAULT_PORT` is 8081 and that is where a bare `tproxy` listens. -/
+example : remoteHelpTproxyPort = 1234 ∧ remoteTproxyDefaultPort = 8081 ∧
+    parse plainOracle "tproxy".toList = .ok ⟨.inet "127.0.0.1".toList 8081, .tproxy, .tcp⟩ := by decide
+
+end RemoteSpecifications
 
 end Penguin.C01
